@@ -1,3 +1,6 @@
 //@@ include prelude.rs
 //@@ include hook.rs
+//@@ include algspec.rs
+//@@ include algutils.rs
+//@@ include myers.rs
 fn main() {}
